@@ -200,7 +200,7 @@ def run_case(case, module, real_so):
     st, I, argv, bufs = _build_state(case)
     if case.pre: st.pc += [c for c in case.pre(I) if c is not True]
     npre = len(st.pc)
-    sub = []; verdict = 'holds'; model_out = None; npaths = 0; q = 0; witness = False; detail = ''
+    sub = []; verdict = 'holds'; model_out = None; npaths = 0; q = 0; witness = False; witness_unknown = False; detail = ''
     try:
         for fs, rv in sym.run(case.func, argv, st):
             npaths += 1
@@ -215,7 +215,9 @@ def run_case(case, module, real_so):
             sym.instantiate_trig_axioms()
             if not witness:
                 q += 1
-                if S.check_sat(list(fs.pc) + list(sym.axioms), 5000)[0] == z3.sat: witness = True
+                wr = S.check_sat(list(fs.pc) + list(sym.axioms), 15000)[0]
+                if wr == z3.sat: witness = True
+                elif wr != z3.unsat: witness_unknown = True
             for label, f in cls:
                 if isinstance(f, tuple) and f and f[0] == 'anyof':
                     # alternatives ordered from strongest to weakest (last one is the actual claim): any proved one suffices
@@ -267,7 +269,10 @@ def run_case(case, module, real_so):
     except Unsupported as e:
         return {'verdict': 'error', 'detail': 'not encodable: %s' % e, 'paths': npaths, 'queries': q + sym.queries}
     if verdict == 'holds' and not witness:
-        verdict = 'error'; detail = 'VACUOUS: no path with a satisfiable path condition'
+        if witness_unknown:
+            verdict = 'unknown'; detail = 'reachability witness undecided: no path condition was shown satisfiable within 15 s (none shown unsatisfiable either)'
+        else:
+            verdict = 'error'; detail = 'VACUOUS: every path condition is unsatisfiable'
     return {'verdict': verdict, 'paths': npaths, 'queries': q + sym.queries, 'subresults': sub[:12], 'model': model_out, 'detail': detail,
             'functions': sorted(sym.funcs_run), 'axioms': [str(a)[:200] for a in sym.axioms[:40]], 'trig_instances': sym.trig_instances[:40], 'witness': 'reachable' if witness else 'none',
             'confirmed': verdict == 'violated', 'time': round(time.time() - t0, 2)}
